@@ -152,22 +152,28 @@ def toSwapOut (s : Swap) : SwapOut :=
     percent := usagePercentScaled 100 s.used s.total 1
     sin := s.sin, sout := s.sout, warned := s.warned, usedSysinfo := s.viaSysinfo }
 
+theorem swapCore_specF (f : Nat) {lk : Bytes → Option Nat} {m : MemInfo} (H : Bridge lk m)
+    (sys : Sysinfo) (vs : Option (List VLine)) (hv : ∀ l ∈ vs, VWF l) :
+    swapCore (cfgF f) lk sys (vs.map renderVmstat)
+      = .ok (toSwapOut (swap m (sys.total * sys.unit) (sys.free * sys.unit) f (vs.map vmstatGet))) := by
+  unfold swapCore swapTotals swap
+  rw [show (cfgF f).kSwapTotal = key "SwapTotal" from rfl,
+    show (cfgF f).kSwapFree = key "SwapFree" from rfl, H, H]
+  cases vs with
+  | none =>
+    cases m.bytes "SwapTotal" <;> cases m.bytes "SwapFree" <;> simp [toSwapOut, cfgF, kernelCfg]
+  | some l =>
+    simp only [Option.map_some]
+    rw [vmstatLoop_vmstatF f l (hv l rfl)]
+    cases m.bytes "SwapTotal" <;> cases m.bytes "SwapFree" <;>
+      cases vmstatGet l (K "pswpin") <;> cases vmstatGet l (K "pswpout") <;>
+        simp [toSwapOut, cfgF, kernelCfg, pairUp]
+
 theorem swapCore_spec {lk : Bytes → Option Nat} {m : MemInfo} (H : Bridge lk m) (sys : Sysinfo)
     (vs : Option (List VLine)) (hv : ∀ l ∈ vs, VWF l) :
     swapCore kernelCfg lk sys (vs.map renderVmstat)
-      = .ok (toSwapOut (swap m (sys.total * sys.unit) (sys.free * sys.unit) (vs.map vmstatGet))) := by
-  unfold swapCore swapTotals swap
-  rw [show kernelCfg.kSwapTotal = key "SwapTotal" from rfl,
-    show kernelCfg.kSwapFree = key "SwapFree" from rfl, H, H]
-  cases vs with
-  | none =>
-    cases m.bytes "SwapTotal" <;> cases m.bytes "SwapFree" <;> simp [toSwapOut, kernelCfg]
-  | some l =>
-    simp only [Option.map_some]
-    rw [vmstatLoop_vmstat l (hv l rfl)]
-    cases m.bytes "SwapTotal" <;> cases m.bytes "SwapFree" <;>
-      cases vmstatGet l (K "pswpin") <;> cases vmstatGet l (K "pswpout") <;>
-        simp [toSwapOut, kernelCfg, pairUp]
+      = .ok (toSwapOut (swap m (sys.total * sys.unit) (sys.free * sys.unit) 4096 (vs.map vmstatGet))) :=
+  swapCore_specF 4096 H sys vs hv
 
 /-! ### facts about the specification itself -/
 
